@@ -137,7 +137,14 @@ def stage_cases(rep, work, binpath, cases, name, spec="Trace_Load", shards=8, jv
             continue
         cid = reject_case_id(rej)
         c = find_case(cases, cid) or {"id": cid}
-        rep.violation(sig, re.sub(r"\s+", " ", rej)[:1200], {"property": rep.pid, "stage": name, "case": c, "tlc": rej, "spec": spec})
+        doc = {"property": rep.pid, "stage": name, "case": c, "tlc": rej, "spec": spec}
+        if sig.startswith("second_load_differs"):
+            # the case that was loaded in between (the worker names it)
+            m = re.search(r'"second_load_differs", "([^"]+)"', rej)
+            nxt = find_case(cases, m.group(1)) if m else None
+            if nxt is not None:
+                doc["then"] = nxt
+        rep.violation(sig, re.sub(r"\s+", " ", rej)[:1200], doc)
     if other:
         rep.cov.setdefault("rejects_attributed_to_other_properties", 0)
         rep.cov["rejects_attributed_to_other_properties"] += other
@@ -243,6 +250,8 @@ def replay(pid, path, work, rep):
         cases = work.path("replay.ndjson")
         with open(cases, "w") as f:
             f.write(json.dumps(doc["case"]) + "\n")
+            if "then" in doc:
+                f.write(json.dumps(doc["then"]) + "\n")
         stage_cases(rep, work, b, cases, "replay", spec=doc.get("spec", "Trace_Load"), shards=1, jvms=1, env={"ASEVER_ALLOC_CAP": ALLOC_CAP})
     else:
         # no single recorded input (threads, profile pairs, compile probe): re-run the property's quick check
@@ -722,7 +731,7 @@ def celsize_extra(rep, work, tier, seed, b):
     """Image cels whose declared size disagrees with their (compressed) data - out of contract, the library accepts surplus data:
     if such a sprite loads, every cel image must still be transparent outside the rectangle the cel declares."""
     hosts = work.path("celsize-hosts.ndjson")
-    gen(b, hosts, "cel", seed + 57, 80 if tier == "quick" else 1500)
+    gen(b, hosts, "cel", seed + 57, 160 if tier == "quick" else 1500)
     inc = work.path("celsize.ndjson")
     with open(inc, "w") as f:
         for line in open(hosts):
@@ -1628,7 +1637,7 @@ def build_probe(rep):
 
 
 def c16(rep, work, tier, seed):
-    mc_run(rep, work, "MC_Api", {}, ["Immutable", "Functional", "Deterministic"], workers=8)
+    mc_run(rep, work, "MC_Api", {"T": 3}, ["Immutable", "Functional", "Deterministic"], workers=10)
     threads_bin = build_probe(rep)
     b = build("dev")
     # (a) same bytes loaded twice, observed twice: equal observations; validated against the specification as well
